@@ -2,7 +2,7 @@
     handleSetProtection, setConfig; dnsforward/config.go
     UpdatedProtectionStatus, enableProtectionAfterPause; filtering/filtering.go
     SetProtectionStatus, SetProtectionEnabled, ProtectionStatus), as the Go
-    code is NOW (/repo 8ae46d5).
+    code is NOW (/repo c1dbdb6).
 
     State: the pair filtering.Config keeps (ProtectionEnabled,
     ProtectionDisabledUntil) and the flag protectionUpdateInProgress of the
@@ -20,16 +20,19 @@
           now before deadline: off
           otherwise          : on, and (unless one is under way already) the
                                goroutine enableProtectionAfterPause is started
-      enableProtectionAfterPause gets the server lock         [PWake]
-          SetProtectionStatus(true, nil); protectionUpdateInProgress := false
+      enableProtectionAfterPause gets the server lock at now  [PWake now]
+          if a deadline is (still) set and now is not before it:
+          SetProtectionStatus(true, nil); else nothing (the pause has been
+          cancelled or replaced meanwhile; before c1dbdb6 the goroutine did
+          not look again); protectionUpdateInProgress := false
 
     Every DNS request reads the state once (process.go: dctx.protectionEnabled,
     _ = s.UpdatedProtectionStatus()), so a query at the instant [now] is a
     [PRead now] whose result is the [protection] input of Model/Pipeline.v.
 
-    The handlers are parameters of the run ([set_policy], [conf_policy]) so
-    that the variants that were seeded / repaired can be stated next to the
-    code.  No proofs here. *)
+    The handlers and the goroutine are parameters of the run ([set_policy],
+    [conf_policy], [wake_policy]) so that the variants that were seeded /
+    repaired can be stated next to the code.  No proofs here. *)
 From Coq Require Import List ZArith Bool.
 From AGH Require Import Model.Pipeline.
 Import ListNotations.
@@ -49,6 +52,7 @@ Definition set_flag (en : bool) (s : prot) : prot := mkProt en (pr_until s) (pr_
 (** What a handler does with an accepted request. *)
 Definition set_policy := Z -> bool -> Z -> prot -> prot.
 Definition conf_policy := bool -> prot -> prot.
+Definition wake_policy := Z -> prot -> prot.
 
 (** handleSetProtection after the request has been accepted, as it is. *)
 Definition set_as_written : set_policy :=
@@ -71,7 +75,7 @@ Inductive pop :=
   | PSet (now : Z) (enabled : bool) (dur : Z)   (* dur = 0: no duration given; the JSON member is a uint *)
   | PConf (enabled : bool)
   | PRead (now : Z)
-  | PWake.
+  | PWake (now : Z).
 
 (** UpdatedProtectionStatus *)
 Definition read (now : Z) (s : prot) : bool * prot :=
@@ -82,27 +86,40 @@ Definition read (now : Z) (s : prot) : bool * prot :=
 
 Definition in_force (now : Z) (s : prot) : bool := fst (read now s).
 
-(** enableProtectionAfterPause, once it holds the lock. *)
-Definition wake (s : prot) : prot := if pr_waking s then mkProt true None false else s.
+(** enableProtectionAfterPause, once it holds the lock, as it is (c1dbdb6): it
+    looks at the pair again. *)
+Definition wake_as_written : wake_policy :=
+  fun now s =>
+    if pr_waking s then
+      match pr_until s with
+      | Some d => if now <? d then mkProt (pr_flag s) (pr_until s) false else mkProt true None false
+      | None => mkProt (pr_flag s) None false
+      end
+    else s.
+
+(** ... and as it was before: whatever the pair holds by now. *)
+Definition wake_unconditional : wake_policy :=
+  fun _ s => if pr_waking s then mkProt true None false else s.
 
 Section Run.
   Variable on_set : set_policy.
   Variable on_conf : conf_policy.
+  Variable on_wake : wake_policy.
 
   Definition prot_step (s : prot) (o : pop) : prot :=
     match o with
     | PSet now en dur => if set_accepted en dur then on_set now en dur s else s
     | PConf en => on_conf en s
     | PRead now => snd (read now s)
-    | PWake => wake s
+    | PWake now => on_wake now s
     end.
 
   Definition prot_run (s : prot) (h : list pop) : prot := fold_left prot_step h s.
 End Run.
 
 (** The server as it is. *)
-Definition step_now := prot_step set_as_written conf_as_written.
-Definition run_now := prot_run set_as_written conf_as_written.
+Definition step_now := prot_step set_as_written conf_as_written wake_as_written.
+Definition run_now := prot_run set_as_written conf_as_written wake_as_written.
 
 (** The pipeline reads the state once per request: the configuration the
     request sees.  [c_prot_deadline] of Model/Pipeline.v says whether a
